@@ -8,7 +8,7 @@ from .classify import attach_labels
 from .universe import kind_of
 
 NAMES = ["a", "b", "c"]
-RARE_NAMES = ["d", "x y", "ä", "A"]
+RARE_NAMES = ["d", "x y", "ä", "A", " ", "\t", " a", "a/b"]
 TYPES = ["t1", "t2", "n.s.", "T1/sub"]
 TEXTS = [None, "some text", "Some  Text", "other"]
 
@@ -49,8 +49,9 @@ VALUE_TABLE = {
                           {"datetime": "2020-01-02T03:04:05.5-01:00"}], "text": ["2020-01-02 03:04:05"],
                  "near": ["2020-01-02", "2020-01-02T03:04:05",
                           {"datetime": "2020-01-02T03:04:05.123456"}, {"date": "2020-01-02"}]},
-    "2-tuple": {"good": [{"list": ["1", "2"]}, {"list": [" 39.12", "67.19 "]}, {"tuple": ["a ", " b"]}],
-                "text": ["(1;2)", "(a; b)", "( 3 ; 4 )"],
+    "2-tuple": {"good": [{"list": ["1", "2"]}, {"list": [" 39.12", "67.19 "]}, {"tuple": ["a ", " b"]},
+                         {"list": ["a", ""]}],
+                "text": ["(1;2)", "(a; b)", "( 3 ; 4 )", "(a;)", "(;b)"],
                 "near": ["(1;2;3)", "1;2", {"list": ["1", "2", "3"]}, "(1)", {"list": [1, 2]}]},
     "3-tuple": {"good": [{"list": ["1", "2", "3"]}], "text": ["(1;2;3)"],
                 "near": ["(1;2)", {"list": ["1", "2"]}]},
@@ -205,7 +206,8 @@ class Gen(object):
 
     def dtype_name(self):
         if self.fault() and self.chance(0.3):
-            return self.pick(["bogus", "0-tuple", "tuple", "integer", 5, ""])
+            return self.pick(["bogus", "0-tuple", "tuple", "integer", 5, "", "2-tuples", "2-tuple ",
+                              "3-tuple-list", " int", "title", "count", "lower", "name", "value"])
         d = self.pick(self.p.dtypes)
         if d in ("string", "int", "float", "boolean", "date") and self.chance(0.2):
             return {"dtype_member": d}
@@ -521,7 +523,10 @@ class Gen(object):
             x = self.pick(free)
         if x is None:
             return None
-        return {"op": "setitem", "t": self.cref(t), "which": which, "i": i, "x": self.ref(x)}
+        op = {"op": "setitem", "t": self.cref(t), "which": which, "i": i, "x": self.ref(x)}
+        if i < len(lst) and isinstance(lst[i].name, str) and self.chance(0.2):
+            op["key"] = lst[i].name        # the child lists also take the name of a child as key
+        return op
 
     def g_reorder(self):
         x = self.pick(self.nodes())
@@ -1077,3 +1082,26 @@ def g_merge_again(self):
 
 
 Gen.g_merge_again = g_merge_again
+
+
+def g_bulk_create(self):
+    """Many children in one container (sibling lists longer than a couple of dozen entries take
+    other code paths in containers that index their children)."""
+    conts = [c for c in self.conts() if len(c.sections) < 5]
+    t = self.pick(conts)
+    if t is None or len(self.U.objs) > 12:
+        return None
+    return {"op": "bulk_create", "t": self.cref(t), "n": self.pick([26, 30]),
+            "kind": "sec" if (kind_of(t) == "doc" or self.chance(0.5)) else "prop"}
+
+
+def g_clone_twice(self):
+    """A copy taken from a fresh copy, with nothing looking at the first copy in between."""
+    x = self.pick(self.U.objs)
+    if x is None or not self.room(2 * len(self.U.subtree(x)) + 2):
+        return None
+    return {"op": "clone_twice", "x": self.ref(x), "second": self.pick(["clone_keep", "export_leaf"])}
+
+
+Gen.g_bulk_create = g_bulk_create
+Gen.g_clone_twice = g_clone_twice
